@@ -415,7 +415,7 @@ pub fn check_program(
             AsmOutcome::Ok(got) => {
                 accepted_any = true;
                 out.class("accepted");
-                if got.orig != img.orig || got.words != img.words {
+                if got.origin() != img.origin() || got.words != img.words {
                     // locate first difference
                     let (key, what) = diff_images(program, &img, got);
                     out.violate(
@@ -478,7 +478,7 @@ pub fn check_program(
 }
 
 fn diff_images(p: &Program, want: &RefImage, got: &crate::exec::Image) -> (String, String) {
-    if want.orig != got.orig {
+    if want.origin() != got.origin() {
         return (
             "C01/origin".into(),
             format!("origin {:?}, expected {:?}", got.orig, want.orig),
